@@ -122,7 +122,7 @@ impl Prop for C05 {
     fn runs(&self, tier: Tier) -> u64 {
         match tier {
             Tier::Quick => 120_000,
-            Tier::Thorough => 12_000_000,
+            Tier::Thorough => 6_000_000,
         }
     }
     fn crash_is_violation(&self) -> bool {
